@@ -12,6 +12,7 @@ CONSTANTS N = 4
  AggBatchFor = "none"
  MemoVerifier = FALSE
  DomainCache = FALSE
+ PeerVerifyLimit = 0
  ReplayPolicy = "either"
 CONSTRAINT Mark
 POSTCONDITION Report
